@@ -16,6 +16,7 @@ snapshot_trace_data. The argument is inductive:
  R3h the selected hop *address* is re-validated with the hop: a clamp that runs before every frame bounds selected_hop_address by the address count of
     the hop selected when it returns (0 without a selection). C15.R4 (imported): the registry never holds more than max_flows flows — the fact the
     reviewed reason of the flow-position lookup cites.
+ R2t every command that changes the selected settings tab selects item 0 of the new tab afterwards (the item index of the old tab may name no item of the new one).
 Not decided: panics inside ratatui / crossterm for degenerate terminal sizes; that layout arithmetic renders *correctly*; the report modes.
 """
 import re
@@ -441,6 +442,36 @@ def run(chk, tier):
             chk.ok('R3', 'clamp_selected_hop:post', 'returns with no selection or an index below hops_for_flow(selected_flow).len() on all %d traces' % len(outs))
     else:
         chk.fail('R3', 'clamp_selected_hop:post', '-', 'TuiApp::clamp_selected_hop not found', key='R3|clamp_selected_hop|missing')
+    # the selected settings *item* belongs to the selected settings *tab*: every command that changes the tab selects item 0 of the new tab afterwards
+    # (tabs have different item counts; an index kept from the old tab may name no item of the new one)
+    TA2 = 'trippy_tui::frontend::tui_app::TuiApp'
+    et = Engine(prog, inline_depth=1, inline_filter=lambda c: prog.fns.get(c, {}).get('impl_adt') == TA2)
+    bad_tab, n_tab = None, 0
+    for p_, f_ in sorted(prog.fns.items()):
+        if f_.get('impl_adt') != TA2 or f_['kind'] != 'AssocFn' or f_.get('argc', 0) < 1 or not f_['locals'][1]['ty'].startswith('&mut') or f_.get('name') == 'new':
+            continue
+        stt = St()
+        try:
+            ot = et.run(f_, [et.sym_ref(stt, 'self')] + [('sym', 'a%d' % i) for i in range(2, f_['argc'] + 1)], stt)
+        except Exception:
+            continue
+        for o in ot:
+            if o.kind != 'return':
+                continue
+            evs = o.st.events
+            wi = [i for i, e_ in enumerate(evs) if e_[0] == 'write' and e_[1] == TA2 and e_[2] == 'settings_tab_selected' and vshow(e_[3]) != 'self.settings_tab_selected']
+            if not wi:
+                continue
+            n_tab += 1
+            sel = [i for i, e_ in enumerate(evs) if e_[0] == 'call' and re.search(r'TableState::select$', e_[1]) and 'setting_table_state' in vshow(e_[7][0]) and vshow(e_[7][1]) == 'Option::Some(0)']
+            if not sel or max(sel) < max(wi):
+                bad_tab = short(p_)
+    if bad_tab or not n_tab:
+        chk.fail('R2', 'settings-tab:item-reset', '-', '%s changes the selected settings tab without selecting item 0 of the new tab: the item index of the old tab may name no item of the new one' % (bad_tab or 'no writer of settings_tab_selected was found;'),
+                 key='R2|settings-tab|item-reset|%s' % (bad_tab or 'anchor'))
+    else:
+        chk.ok('R2', 'settings-tab:item-reset', 'every change of settings_tab_selected is followed by setting_table_state.select(Some(0)) (%d traces)' % n_tab)
+
     # the selected hop *address* is re-validated with the hop: one of the clamps that run before every frame bounds selected_hop_address by the
     # address count of the hop that is selected when it returns (or by 0 without a selection), on every trace. Commands reset it when they move the
     # selection, but the data under an unchanged selection is replaced by every snapshot (clear trace data, a shorter round).
